@@ -2,7 +2,7 @@
    Only property theorems: each is closed by `exact` and followed by Print Assumptions. *)
 From Coq Require Import List NArith ZArith.
 From DSD Require Import Base.Str Base.Errors Model.ComplexUtils Model.RegStr Model.Heap Model.Registry
-  Proofs.RegHeap Proofs.RegInv Proofs.RegCalls Proofs.RegExt Proofs.RegC04 Proofs.RegStep Proofs.RegC01 Proofs.RegC05.
+  Proofs.RegHeap Proofs.RegInv Proofs.RegCalls Proofs.RegExt Proofs.RegC04 Proofs.RegStep Proofs.RegC01 Proofs.RegC05 Proofs.RegExamples Proofs.RegFull Proofs.RegRelease.
 Import ListNotations.
 
 (* in every state between two operations of every history: live <-> reachable from a slot *)
@@ -74,3 +74,22 @@ Theorem C05_set_turns_no_edge : forall ct st slot v,
              option_map (fun o => (o_live o, o_children o, o_name o, o_key o)) (hget (heap st) i)).
 Proof. exact set_turns_no_edge. Qed.
 Print Assumptions C05_set_turns_no_edge.
+
+(* release and redefinition as one statement about operations: after the drop that makes the domain
+   unreachable, a request with its name and another length is Created (names with an unstarred non-empty
+   base, complement not live, non-failing class) *)
+Theorem C05_release_redefine : forall ct st slot c ci n l l' i ob,
+  Good ct st -> consts_nonzero ct -> get_root st slot = Some i -> live_obj (heap st) i ob ->
+  o_cls ob = c -> o_name ob = n -> o_data ob = DDom l ->
+  nth_error ct c = Some ci -> c_fail ci = FNone -> l' <> 0%Z ->
+  base_unstarred n -> nonempty (cname_of n) = true ->
+  ~ Reach (heap st) (root_ids (roots (set_root st slot None))) i ->
+  absent st c (cname_of n) ->
+  exists id, snd (step ct (fst (step ct st (ODrop slot))) (ODomain slot c (Some n) (Some l') None None)) = Created id.
+Proof. exact release_redefine. Qed.
+Print Assumptions C05_release_redefine.
+
+(* the guard on the name is necessary: with a live a(5), a dropped a**(5) cannot be redefined as a**(7) *)
+Theorem C05_release_redefine_refuted_for_double_star : ~ release_redefine_full.
+Proof. exact release_redefine_full_refuted. Qed.
+Print Assumptions C05_release_redefine_refuted_for_double_star.
